@@ -1,6 +1,8 @@
 import PharmpyModel.Core.Sexp
 import PharmpyModel.C06.EqHash
 import PharmpyModel.Generated.EqHash
+import PharmpyModel.C06.Effects
+import PharmpyModel.Generated.Effects
 open Pharmpy Pharmpy.C06
 
 /-- `(a s)`, `(i id content)`, `(f id content)`, `(d (k v)…)`, `(t v…)`, `(o Cls v…)` -/
@@ -33,6 +35,9 @@ def handle (req : Sexp) : Sexp :=
   | .list [.atom "classes"] =>
     .list (T.map (fun sp => .list [.atom sp.name, Sexp.ofBool (classOK T sp.name), Sexp.ofStrs (directBad sp),
                                    Sexp.ofStrs (sp.fields.map (·.name))]))
+  | .list [.atom "effects"] =>
+    .list (Generated.effects.map (fun f => .list [.atom f.name, Sexp.ofBool (Eff.check f), Sexp.ofStrs (Eff.taintedWrites f)]))
+  | .list [.atom "unanalysed"] => Sexp.ofStrs Generated.unanalysed
   | _ => bad
 
 def main : IO Unit := runDriver (fun (_ : Unit) r => ((), handle r)) ()
